@@ -21,6 +21,12 @@ without latch, and single-value reads of that bank), each on its own bus with it
 command by command (harness.bus.run_interleaved) - what two drivers in one process do.  Each must pass the
 single-sequence oracle on its own unit and return what it returns when run alone.
 
+Boolean options as callers spell them: use_latch (and, in C10, the options of the write path) is also handed over as
+1 / 0 / 2 / "yes" / "" / [0] / [] / an object that only defines __bool__ ... and must act as bool(object) says.
+
+The query helpers MemoryBank.is_locked / last_address and MemoryValue.is_addressable / is_locked are readings of the
+header bytes; run to their end they are judged against the unit's memory (see ASSUMPTIONS).
+
 Operations one after the other on ONE bank object: histories of the public operations of a MemoryBank and its values
 (latch(), unlatch(), read_all with and without latch, single-value reads, is_locked, last_address, is_addressable),
 run to their end, abandoned half-way (the driver stops asking, or raises into the sequence) or aborted by a garbled
@@ -60,7 +66,11 @@ RULE = ("single value: (value class, addressing kind, image, last accessible loc
         "is_addressable, each complete, abandoned after n commands or aborted by a fault, or another controller changing "
         "DTRs / lock byte - ending in a complete read on the same or another unit): a list of ~40 prefixes x 4 final reads "
         "per bank object, plus Hypothesis-drawn histories; non-trivial = the judged read has at least one earlier "
-        "operation of the same bank object behind it")
+        "operation of the same bank object behind it, or a query helper (is_locked / last_address / is_addressable / "
+        "is_locked of a value: value x lock byte x last locations around the value x header holes) is judged; the "
+        "use_latch option of any whole-bank read may be handed over as a truthy / falsy object that is not a bool "
+        "(11 styles); whole banks whose locations from 3 up to the last accessible one are all (or all but one) "
+        "unimplemented")
 ASSUMPTIONS = [
     "bus units follow harness/model_gear.py / model_devmem.py: READ MEMORY LOCATION answers NO above the last accessible "
     "location and at unimplemented locations, advances DTR0 either way, and clears writeEnableState (IEC 62386-102 "
@@ -87,8 +97,19 @@ ASSUMPTIONS = [
     "exactly what a MemoryBank newly declared from the same declarations does against the same unit",
     "units do not drift outside a judged latched read; a unit that an aborted read left latched keeps the latched values "
     "as its live values (so that 'the bytes stored' is well defined for the next read)",
-    "latch(), unlatch(), is_locked(), last_address(), is_addressable() themselves are not judged (the statement is about "
-    "reads); whatever they raise is ignored",
+    "latch() and unlatch() themselves are not judged (the statement is about reads); whatever they raise is ignored",
+    "the query helpers are readings of the header bytes 'interpreted by that value's rules' and are judged when they run "
+    "to their end with no fault on the bus, against the unit model's memory: MemoryBank.last_address() == the byte at "
+    "location 0x00; MemoryBank.is_locked() == (lock byte != 0x55) for bank objects declared with a lock and False for "
+    "the others (also for latch-only banks 202-204, whose byte at 0x02 is a latch byte only); "
+    "MemoryValue.is_addressable() == (the value's highest location <= the byte at 0x00), False or "
+    "MemoryLocationNotImplemented when location 0x00 does not answer; MemoryValue.is_locked() == (first declared "
+    "location is lockable and the bank is locked); nothing is demanded when the byte they need is not implemented; "
+    "they must leave all memory unchanged",
+    "boolean options (use_latch here; allow_short_write / force_unlock / ignore_feedback in C10) mean bool(object): a "
+    "caller may hand over 1 / 0 / 2 / -1 / 0.5 / 'yes' / '' / [0] / [] / (0,) / () / bytes / dicts / objects that only "
+    "define __bool__ or __len__ (numpy-style) - the unchanged library only ever tests their truth value - and every "
+    "oracle applies with the option's truth value; None is not used (no option defaults to None)",
 ]
 
 # The read_all latch defect found at the pinned commit is repaired in /repo (KNOWN_FINDINGS.txt "fixed:" line), so
@@ -97,6 +118,62 @@ KNOWN_DEFECT_SIGS = ()
 LAST_OUTCOME = [None]      # outcome class of the most recent case (histogram only)
 HEADER = ("LastAddress", "LockByte")
 NLOC = 255
+
+
+# ------------------------------------------------- boolean options, as callers spell them ----
+class _Truth:
+    """What numpy.bool_ and the like are to the library: an object with a truth value that is neither identical nor
+    equal to True / False / 1 / 0."""
+
+    def __init__(self, truth):
+        self.truth = truth
+
+    def __bool__(self):
+        return self.truth
+
+    def __repr__(self):
+        return "<object whose bool() is %s>" % self.truth
+
+
+class _Sized:
+    """A container-like object: its truth value is whether it is non-empty."""
+
+    def __init__(self, n):
+        self.n = n
+
+    def __len__(self):
+        return self.n
+
+    def __repr__(self):
+        return "<container with %d item(s)>" % self.n
+
+
+# style -> (a falsy object, a truthy object); made anew for every call
+SPELL = {
+    "int": lambda: (0, 1), "two": lambda: (0, 2), "list": lambda: ([], [0]), "str": lambda: ("", "yes"),
+    "obj": lambda: (_Truth(False), _Truth(True)), "neg": lambda: (0, -1), "float": lambda: (0.0, 0.5),
+    "tuple": lambda: ((), (0,)), "bytes": lambda: (b"", b"\x00"), "dict": lambda: ({}, {0: 0}),
+    "sized": lambda: (_Sized(0), _Sized(2)),
+}
+SPELL_CORE = ("int", "two", "list")
+SPELL_MORE = ("str", "obj", "neg", "float", "tuple", "bytes", "dict", "sized")
+SPELL_STYLES = SPELL_CORE + SPELL_MORE
+
+
+def spelled(style, truth):
+    """The object by which a caller hands over a boolean option that means `truth`: the bool itself (style None) or
+    the truthy / falsy object of the named style.  The option must then act exactly as bool(object) == truth says."""
+    if style is None:
+        return bool(truth)
+    return SPELL[style]()[1 if truth else 0]
+
+
+def spell_styles(quick, k):
+    """The styles used at one place of an enumeration: all of them, or (quick) the core ones and two of the others."""
+    if not quick:
+        return SPELL_STYLES
+    m = len(SPELL_MORE)
+    return SPELL_CORE + (SPELL_MORE[k % m], SPELL_MORE[(k + 3) % m])
 
 # ------------------------------------------------------------------ synthetic map ----
 SYN_BANK = dict(bank=249, has_lock=True, has_latch=True, last=0xFE)
@@ -560,7 +637,7 @@ def prep_bank(case, w=None, bank_obj=None):
     bank_obj = bank_obj or L["banks"].get(bankobj)
     if bank_obj is None:
         return None
-    use_latch = case["use_latch"]
+    use_latch = bool(case["use_latch"])
     holes = case["holes"]
     last = case["last"]
     # can a latch be set at all?
@@ -575,8 +652,12 @@ def prep_bank(case, w=None, bank_obj=None):
             if drift else probe
     fault = tuple(case["fault"]) if case.get("fault") else None
     bus = MemBus(w.units, fault=fault, max_commands=300, watch=w.target)
-    where = "read_all(use_latch=%s%s) of %s" % (use_latch, ", live memory drifting" if drift else "", _where(case))
-    return Job("bank", case, w, bus, lambda: bank_obj.read_all(make_addr(case["addr"], case["short"]), use_latch=use_latch),
+    # the option as the caller spells it: case["use_latch"] is what it MEANS (a bool), case["spell"] names the object used
+    style = case.get("spell")
+    where = "read_all(use_latch=%r%s) of %s" % (spelled(style, use_latch), ", live memory drifting" if drift else "",
+                                                _where(case))
+    return Job("bank", case, w, bus,
+               lambda: bank_obj.read_all(make_addr(case["addr"], case["short"]), use_latch=spelled(style, use_latch)),
                where, latch_possible=latch_possible, drift=drift)
 
 
@@ -814,7 +895,47 @@ class DriverFailed(Exception):
 
 
 READ_OPS = ("read_all", "value")
-HELPER_OPS = ("latch", "unlatch", "is_locked", "last_address", "is_addressable", "value_is_locked")
+QUERY_OPS = ("is_locked", "last_address", "is_addressable", "value_is_locked")     # readings of the header bytes: judged
+HELPER_OPS = ("latch", "unlatch") + QUERY_OPS
+
+
+def query_expectation(name, w, row):
+    """What a query helper must report about the unit as it is NOW, from the unit model's memory and the reference
+    tables: ("value", v) | ("value-or-not-implemented", v) | ("open", why) when the byte it needs cannot be read."""
+    spec = w.spec
+    la = w.bank.read(0)
+    lk = w.bank.read(2) if spec["has_lock_byte"] else None
+    if name == "last_address":
+        return ("open", "location 0x00 is not implemented") if la is None else ("value", la)
+    if name == "is_addressable":
+        if la is None:
+            return ("value-or-not-implemented", False)
+        return ("value", max(row["locs"]) <= la)
+    if name == "value_is_locked" and not (row["memtype"][0] == "NVM_RW_L" and spec["has_lock"]):
+        return ("value", False)
+    if not spec["has_lock"]:
+        return ("value", False)
+    return ("open", "the lock byte is not implemented") if lk is None else ("value", lk != 0x55)
+
+
+def judge_query(name, text, exp, oc, where):
+    """-> violations of one query helper that ran to its end without an injected fault"""
+    exc = lib()["exc"]
+    if oc[0] == "returned":
+        if exp[0] != "open" and not (isinstance(oc[1], int) and oc[1] == exp[1]):
+            return [("C09:query-helper-wrong-result:" + name, "%s returned %r; the unit's memory says %r (%s)"
+                     % (text, oc[1], exp[1], where))]
+        return []
+    e = oc[1]
+    if isinstance(e, exc.MemoryLocationNotImplemented):
+        if exp[0] == "value":
+            return [("C09:query-helper-not-implemented-unexpected:" + name, "%s raised MemoryLocationNotImplemented (%s) "
+                     "although the byte it reads is implemented; expected %r (%s)" % (text, e, exp[1], where))]
+        return []
+    if isinstance(e, NonTermination):
+        return [("C09:nontermination", "%s: more than 400 commands (%s)" % (text, where))]
+    return [("C09:query-helper-raised:%s:%s" % (name, type(e).__name__), "%s raised %r without any fault on the bus (%s)"
+             % (text, e, where))]
 
 
 def rebase(w):
@@ -908,7 +1029,7 @@ def _op_text(op, units):
     u = units[op["unit"]]
     s = op["op"]
     if s == "read_all":
-        s += "(use_latch=%s)" % op.get("use_latch", True)
+        s += "(use_latch=%r)" % (spelled(op.get("spell"), op.get("use_latch", True)),)
     if op.get("key"):
         s += " " + op["key"].split(".", 1)[-1]
     if s == "other-controller":
@@ -925,7 +1046,7 @@ def _sub_case(bankobj, u, op):
     if op["op"] == "value":
         return dict(u, kind="value", key=op["key"], fault=op.get("fault"))
     return dict(u, kind="bank", bank=bankobj, use_latch=bool(op.get("use_latch", True)), drift=bool(op.get("drift")),
-                fault=op.get("fault"))
+                fault=op.get("fault"), spell=op.get("spell"))
 
 
 def case_history(case):
@@ -941,7 +1062,7 @@ def case_history(case):
     units = case["units"]
     worlds = [World(bankobj, u["addr"], u["short"], u["image"], u["last"], u["holes"], u.get("lock")) for u in units]
     out, seen = [], set()
-    judged = 0
+    judged = queries = 0
 
     def add(sig, msg):
         if sig not in seen:
@@ -1014,10 +1135,15 @@ def case_history(case):
                     "by a newly declared equivalent MemoryBank against a copy of the unit: %s%s"
                     % (job.where, bankobj, past, why, ("; " + "; ".join("%s [%s]" % (m, s_) for s_, m in fresh[:2])) if fresh else ""))
             continue
-        # ---- not judged: helper operations, and reads that are given up
+        # ---- latch / unlatch and reads that are given up: not judged; query helpers run to their end: judged
         if name not in READ_OPS + HELPER_OPS:
             raise ValueError("operation %r" % (name,))
         bus = MemBus(w.units, fault=tuple(op["fault"]) if op.get("fault") else None, max_commands=400, watch=w.target)
+        query = name in QUERY_OPS and not op.get("stop")
+        if query:
+            q_exp = query_expectation(name, w, all_rows()[op["key"]] if op.get("key") else None)
+            q_mem = _memory(w)
+            q_oc = None
         try:
             if name == "latch":
                 gen = bank_obj.latch(addr)
@@ -1032,7 +1158,7 @@ def case_history(case):
             elif name == "value_is_locked":
                 gen = cls.is_locked(addr)
             elif name == "read_all":
-                gen = bank_obj.read_all(addr, use_latch=bool(op.get("use_latch", True)))
+                gen = bank_obj.read_all(addr, use_latch=spelled(op.get("spell"), op.get("use_latch", True)))
             else:
                 gen = cls.read(addr)
             if not hasattr(gen, "send"):
@@ -1042,11 +1168,23 @@ def case_history(case):
             if op.get("stop"):
                 run_partial(bus, gen, op["stop"][0], op["stop"][1])
             else:
-                bus.run(gen)
-        except Exception as e:  # noqa: not judged
+                q_oc = ("returned", bus.run(gen))
+        except Exception as e:  # noqa: not judged, or judged below
             if not _tolerated(e):
                 raise
-    LAST_OUTCOME[0] = "outcome:history:%d-judged-read%s" % (judged, "" if judged == 1 else "s")
+            q_oc = ("raised", e)
+        if query and q_oc is not None and bus.injected is None:
+            queries += 1
+            text = "%s of bank object %s" % (_op_text(op, units), bankobj)
+            where = "unit: %s; earlier operations of the same bank object: %s" % (
+                _where(dict(u, bank=bankobj, lock=w.bank.contents[2] if spec["has_lock_byte"] else None)),
+                "; ".join(_op_text(o, units) for o in case["ops"][:k]) or "none")
+            for sig, msg in judge_query(name, text, q_exp, q_oc, where):
+                add(sig, msg)
+            if _memory(w) != q_mem:
+                add("C09:query-helper-changed-memory", "%s changed the memory of the unit(s) (%s)" % (text, where))
+    LAST_OUTCOME[0] = "outcome:history:%d-judged-read%s%s" % (judged, "" if judged == 1 else "s",
+                                                              "+judged-queries" if queries else "")
     return out
 
 
@@ -1087,6 +1225,10 @@ def features(case):
                 f.append("history:earlier-operations-on-the-same-unit")
             if last["op"] == "read_all" and last.get("use_latch", True) and bankspec(case["bank"])["has_latch"]:
                 f.append("history:latched-read")
+        if any(o["op"] in QUERY_OPS and not o.get("stop") for o in ops):
+            f.append("history:judged-query")
+        if any(o.get("spell") for o in ops):
+            f.append("option-spelling")
         f.append("history:%d-units" % len(case["units"]))
         return f
     if case["kind"] == "interleaved":
@@ -1123,12 +1265,17 @@ def features(case):
             f.append("latch")
             if case.get("drift"):
                 f.append("latch+drift")
+        if case.get("spell"):
+            f.append("option-spelling")
+        if len(holes) >= last - 2 > 0 and holes >= set(range(3, min(last, NLOC - 1) + 1)):
+            f.append("body-unimplemented")
     if case.get("fault"):
         f.append("fault:" + case["fault"][1])
     return f
 
 
-NONTRIVIAL = ("truncated", "holed", "latch+drift", "fault:silence", "fault:garble", "history:read-with-a-past")
+NONTRIVIAL = ("truncated", "holed", "latch+drift", "fault:silence", "fault:garble", "history:read-with-a-past",
+              "history:judged-query")
 
 
 def is_nontrivial(case):
@@ -1172,9 +1319,12 @@ def _value_case(key, addr, short, image, last, holes=(), lock=0xFF, fault=None):
             "holes": list(holes), "lock": lock, "fault": fault}
 
 
-def _bank_case(bank, addr, short, image, last, holes=(), lock=0xFF, use_latch=True, drift=False, fault=None):
-    return {"kind": "bank", "bank": bank, "addr": addr, "short": short, "image": image, "last": last,
-            "holes": list(holes), "lock": lock, "use_latch": use_latch, "drift": drift, "fault": fault}
+def _bank_case(bank, addr, short, image, last, holes=(), lock=0xFF, use_latch=True, drift=False, fault=None, spell=None):
+    c = {"kind": "bank", "bank": bank, "addr": addr, "short": short, "image": image, "last": last,
+         "holes": list(holes), "lock": lock, "use_latch": use_latch, "drift": drift, "fault": fault}
+    if spell is not None:
+        c["spell"] = spell          # the style in which use_latch is handed over (see spelled())
+    return c
 
 
 def _shard_values(arg):
@@ -1240,6 +1390,27 @@ def _shard_banks(arg):
                 for use_latch in latches:
                     run(_bank_case(bankobj, addr, short, img, None if img == "default" else top, use_latch=use_latch),
                         "bank:image-" + img)
+        # nothing but the header answers: every location from the first one read up to the last accessible one is
+        # unimplemented (also with one location left that does answer)
+        first = 3 if spec["has_lock_byte"] else 2
+        for last in sorted(set(range(first, min(top, first + 6) + 1)) | {top, min(0xFE, top + 2)} | (set() if quick else {0xFE})):
+            body = list(range(first, last + 1))
+            for li, use_latch in enumerate(latches):
+                addr = ADDRS[(last + li + seed) % 3]
+                run(_bank_case(bankobj, addr, short, image, last, holes=body, lock=LOCKS[(last + li) % len(LOCKS)],
+                               use_latch=use_latch), "bank:body-unimplemented")
+                for keep in sorted({body[0], body[-1], body[len(body) // 2]}) if len(body) > 1 else ():
+                    run(_bank_case(bankobj, addr, short, image, last, holes=[a for a in body if a != keep],
+                                   lock=LOCKS[(last + li + 1) % len(LOCKS)], use_latch=use_latch, drift=use_latch),
+                        "bank:body-unimplemented-but-one")
+        # use_latch given as something other than a bool: it must act as bool(object) says
+        mid = max(first, top // 2)
+        for si, style in enumerate(spell_styles(quick, seed + spec["bank"])):
+            for truth in (True, False):
+                for j, (last, holes) in enumerate(((top, []), (mid, []), (top, [min(top, first + 1)]), (first, [first]))):
+                    run(_bank_case(bankobj, ADDRS[(si + j + seed) % 3], short, image, last, holes=holes,
+                                   lock=LOCKS[(si + j) % len(LOCKS)], use_latch=truth, drift=truth and j != 1, spell=style),
+                        "bank:option-spelling")
         nreads = top + 1
         step = 1 if not quick or nreads < 40 else 3
         for q in range(0, nreads + 1, step):
@@ -1300,7 +1471,8 @@ def _shard_inter(arg):
         for (la_, lb_) in ((top, top), (top, mid), (mid, top), (top, 2)):
             for name, sched, cyc in inter_schedules(2, la_ + 4, quick):
                 n += 1
-                a = _bank_case(bankobj, ADDRS[n % 3], shorts[0], imgs[0], la_, lock=LOCKS[n % 4], use_latch=ua, drift=ua and n % 2 == 0)
+                a = _bank_case(bankobj, ADDRS[n % 3], shorts[0], imgs[0], la_, lock=LOCKS[n % 4], use_latch=ua, drift=ua and n % 2 == 0,
+                               spell=SPELL_STYLES[(n // 3 + seed) % len(SPELL_STYLES)] if n % 3 == 0 else None)
                 b = _bank_case(bankobj, ADDRS[(n + 1 + n // 3) % 3], shorts[n % 2], imgs[1], lb_, lock=LOCKS[(n + 1) % 4], use_latch=ub,
                                holes=[keys and all_rows()[keys[n % len(keys)]]["locs"][0] or 5] if n % 5 == 0 else [])
                 run(_inter_case([a, b], sched, cyc), "interleaved:read_all+read_all:" + name)
@@ -1418,11 +1590,36 @@ def _shard_hist(arg):
                 finals.append({"op": "value", "unit": n % 2, "key": key})
             for fin in finals:
                 n += 1
+                if fin["op"] == "read_all" and n % 3 == 0:
+                    fin = dict(fin, spell=SPELL_STYLES[(n // 3 + seed) % len(SPELL_STYLES)])
                 # every other history: both units answer to the same address, in the same form (two DALI lines)
                 units = [_unit(ADDRS[(n + (i if n % 2 else 0) + n // 3) % 3], (seed + spec["bank"] + (5 * i if n % 2 else 0)) % 64,
                                ["prng", base + 9000 + i], top if (n + i) % 7 else max(3, top - 1 - n % 3),
                                lock=LOCKS[(n + i) % 3]) for i in range(2)]
                 run(_hist_case(bankobj, units, pre + [fin]), "history:" + name)
+    # the query helpers (is_locked, last_address, is_addressable, is_locked of a value), judged against the unit's
+    # memory: every value x lock byte x last accessible locations around the value / header holes; as the first
+    # operations of the bank object's life or after latch / a whole-bank read with a spelled option
+    for ki, key in enumerate(keys):
+        row = all_rows()[key]
+        hi = max(row["locs"])
+        settings = [(top, []), (hi, []), (max(0, hi - 1), []), (min(0xFE, hi + 1), []), (1, []), (top, [2]), (top, [0]),
+                    (None, []), (0xFE, [])]
+        for si, (last, holes) in enumerate(settings):
+            for li, lock in enumerate(LOCKS):
+                if quick and (ki + si + li + seed) % 2:
+                    continue
+                n += 1
+                qs = [{"op": "is_locked", "unit": 0}, {"op": "last_address", "unit": 0},
+                      {"op": "is_addressable", "unit": 0, "key": key}, {"op": "value_is_locked", "unit": 0, "key": key}]
+                qs = qs[n % 4:] + qs[:n % 4]
+                pre = []
+                if n % 5 == 0:
+                    pre = [{"op": "latch", "unit": 0}]
+                elif n % 5 == 1:
+                    pre = [{"op": "read_all", "unit": 0, "use_latch": bool(n % 2), "spell": SPELL_STYLES[n % len(SPELL_STYLES)]}]
+                run(_hist_case(bankobj, [_unit(ADDRS[n % 3], (seed + spec["bank"] + n) % 64, ["prng", base + 9500 + ki], last,
+                                               holes, lock)], pre + qs), "history:queries-judged")
     res.sample(_hist_case(bankobj, [_unit("gear", 3, ["prng", 1], top), _unit("gear", 3, ["prng", 2], top)],
                           [{"op": "latch", "unit": 0}, {"op": "read_all", "unit": 1, "use_latch": True, "drift": True}]),
                cls="history")
@@ -1451,6 +1648,14 @@ def image_st():
                      st.binary(min_size=NLOC, max_size=NLOC).map(lambda b: ["hex", b.hex()]))
 
 
+_SPELL_ST = st.one_of(st.none(), st.none(), st.sampled_from(SPELL_STYLES))
+
+
+def spell_st():
+    """Mostly the bool itself, else one of the styles in which callers spell a boolean option."""
+    return _SPELL_ST
+
+
 @st.composite
 def value_case_st(draw, keys):
     key = draw(st.sampled_from(keys))
@@ -1474,9 +1679,13 @@ def bank_case_st(draw, banks):
     n = top if last is None else last
     holes = draw(st.one_of(st.just([]), st.lists(st.integers(0, max(3, min(254, n))), max_size=4, unique=True),
                            st.lists(st.integers(0, 254), max_size=10, unique=True)))
+    if 3 <= n <= 40 and draw(st.integers(0, 11)) == 0:
+        # nothing (or next to nothing) beyond the header answers
+        keep = draw(st.lists(st.integers(3, n), max_size=1))
+        holes = [a for a in range(3, n + 1) if a not in keep]
     fault = draw(st.one_of(st.none(), st.tuples(st.integers(0, max(1, n)), st.sampled_from(["silence", "garble"])).map(list)))
     return _bank_case(b, draw(st.sampled_from(ADDRS)), draw(st.integers(0, 63)), draw(image_st()), last, sorted(holes),
-                      draw(st.sampled_from(LOCKS)), draw(st.booleans()), draw(st.booleans()), fault)
+                      draw(st.sampled_from(LOCKS)), draw(st.booleans()), draw(st.booleans()), fault, draw(spell_st()))
 
 
 @st.composite
@@ -1527,6 +1736,9 @@ def history_case_st(draw, keys_by_bank, banks):
         if name == "read_all":
             o["use_latch"] = draw(st.sampled_from([True, True, False]))
             o["drift"] = draw(st.booleans())
+            style = draw(spell_st())
+            if style is not None:
+                o["spell"] = style
         if name == "other-controller":
             o["lock"] = draw(st.sampled_from([None, None, 0xFF, 0x55, 0xAA, 0x00]))
         if name in READ_OPS and draw(st.integers(0, 3)) == 0:
